@@ -190,6 +190,25 @@ def _primed_map(cfg, prime):
         except Exception:
             pass
         return _make_map(cfg)
+    if prime in ("aba", "config_between"):
+        # the map object's own bookkeeping: section A, section B, section A again (an identical request), then the run's
+        # computation of A with other options; or: the section, a fresh assignment of the same configuration, the section again
+        pm = _make_map(cfg)
+        other = {"q3": "q2", "q2": "q3", "p3": "p2", "p2": "p3"}[cfg["section"]]
+        seq = [cfg["section"], other, cfg["section"]] if prime == "aba" else [cfg["section"]]
+        for sec in seq:
+            STRAT.np.seed = cfg["rng_seed"]
+            try:
+                pm.compute(section_coord=sec, options=_options(small, 1))
+            except Exception:
+                pass
+        if prime == "config_between":
+            import dataclasses
+            pm.config = dataclasses.replace(pm.config)
+            n = int(cfg["n_seeds"])
+            strategy = pm.dynamics.generator._get_engine()._strategy
+            strategy.__class__ = type("_Forced" + type(strategy).__name__, (type(strategy),), {"n_seeds": property(lambda self: n)})
+        return pm
     if prime == "recompute":
         # the same map object already computed the run's section with fewer iterations and seeds' worth of rows
         pm = _make_map(cfg)
@@ -381,7 +400,7 @@ def execute(ctx: RunCtx) -> None:
     cfg = draw_config(ds, len(ENVS), quick=(ctx.tier == "quick"))
     fault_cfg = ds.flag("cfg.fault_configuration", 0.15)
     use_psim = ds.flag("cfg.prange_sim_kernel", 0.5)
-    prime = ds.pick(["none", "section", "degree", "energy", "recompute"], "cfg.map_history", (0.5, 0.15, 0.15, 0.1, 0.1))
+    prime = ds.pick(["none", "section", "degree", "energy", "recompute", "aba", "config_between"], "cfg.map_history", (0.44, 0.12, 0.12, 0.08, 0.08, 0.1, 0.06))
     log.add("cfg", {k: (fhex(v) if isinstance(v, float) else v) for k, v in cfg.items()}, fault_cfg, use_psim, prime)
     ctx.sample = {"config": dict(cfg, env=ENVS[cfg["env"]]["name"]), "fault_configuration": fault_cfg, "prange_sim_kernel": use_psim, "map_history": prime}
     what = f"map {ENVS[cfg['env']]['name']} {cfg}"
